@@ -47,6 +47,47 @@ class FactoryModel:
         return out
 
     def _arms(self, fn, enum_cls):
+        folded = self._arms_folded(fn, enum_cls)
+        if folded is not None:
+            if len(folded) < 30:
+                raise AnalysisError('instance floor not met: %s has %d arms' % (fn.name, len(folded)))
+            return folded
+        return self._arms_spelled(fn, enum_cls)
+
+    def _arms_folded(self, fn, enum_cls):
+        """member -> constructed classes, by folding the registry function for every member of the selector's enumeration: the
+        return statement reached for that member is looked at (None = raises NotImplementedError/ValueError, i.e. refuses).  Works
+        for if-chains, early returns, lookup tables (expanded at parse time) and helpers (expanded in place) alike; None when the
+        function uses something the folder does not model."""
+        from .fold import Folder, Enum, Opaque, Unfoldable, Raised, Captured
+        members = enum_table(self.src, enum_cls)
+        ps = params(fn)
+        arms = {}
+        try:
+            for mname in members:
+                f = Folder(steps=20000)
+                f.capture_returns = True
+                env = {'self': {'__attrs__': ()}, ps[0]: Enum(enum_cls, mname)}
+                for p_ in ps[1:]:
+                    env[p_] = Opaque('argument')
+                try:
+                    r = f.run(fn.body, env)
+                    continue        # falls off the end: returns None, not an arm
+                except Captured as c:
+                    v = c.node.value
+                    if v is None or (isinstance(v, ast.Constant) and v.value is None):
+                        continue
+                    # constants known at the return (e.g. the table key) are put in place
+                    arms[mname] = self._result_classes(v)
+                except Raised as ex:
+                    if ex.name in ('NotImplementedError',):
+                        arms[mname] = None
+                    # ValueError etc.: the member is not an attribute for this registry
+        except Unfoldable:
+            return None
+        return arms
+
+    def _arms_spelled(self, fn, enum_cls):
         var = params(fn)[0]
         arms = {}
         for n in ast.walk(fn):
